@@ -8,6 +8,30 @@ SIM_REAL = ["model3d, model2d, numerical, render3d, toolbox3d (all library code,
 SIM_SHIM = ["github.com/unixpickle/essentials concurrency.go (same goroutine structure + scheduling points; other files verbatim)"]
 
 PROPS = {
+    "C20": {
+        "race": False,
+        "hang_is_trouble": True,
+        "level": "exploration",
+        "budget_s": {"quick": 45, "thorough": 1200},
+        "max_cases": {"quick": 0, "thorough": 0},
+        "min_fields": ["sched", "work"],
+        "zero_fields": ["sched", "work"],
+        "rule": ("one case = (image size 2..24, renderer in {RecursiveRayTracer(MaxDepth 0), RayCaster, BidirPathTracer}, worker count 1..32 "
+                 "(render.workers knob; more workers than pixels included), NumSamples 1..64, MinSamples 0..NumSamples, MaxStddev in {0,1e-9,0.01,0.3,1e9}, "
+                 "OversaturatedStddevs, custom Convergence {none, pure hash of the mean, always, never}, Antialias {0,0.5,0.9}, LogFunc set/unset, "
+                 "per-pixel radiance stream {constant, alternating, heavy-tailed, settling, oversaturated}, goroutine schedule) from two choice tapes. "
+                 "The scene is a stub Object that maps each primary ray back to its pixel, records (pixel, value, goroutine, sequence) and is a "
+                 "scheduling point. Oracle over the recorded history: pixel == arithmetic mean of exactly the values handed out for it; sample count "
+                 "within [min(MinSamples,NumSamples), NumSamples] and == NumSamples without a convergence check; every pixel sampled in exactly one "
+                 "contiguous episode of one goroutine and at least once; LogFunc arguments monotone and in range; Render returns (no deadlock/livelock). "
+                 "distinct_nontrivial = distinct cases with >=1 preemption."),
+        "assumptions": [
+            "only the estimator/bookkeeping, exactly-once and termination clauses of C20 are decided here; closed-form radiance, camera inverse, composite objects and transforms are pure functions and not claimed",
+            "the radiance of one bidirectional sample is not observable at the Cast seam: BidirPathTracer is checked for sample counts, exactly-once and termination only",
+        ],
+        "components": {"real": ["render3d (ray_renderer.go, concurrency.go, raytrace.go, raycast.go, bidir.go, camera.go) with -tags verif hooks", "Go runtime channels/WaitGroup, global math/rand"],
+                       "shim": [], "stub": ["castObj: render3d.Object whose Cast records the sample history and yields to the scheduler"]},
+    },
     "C13": {
         "race": True,
         "replay_isolated": True,
